@@ -25,6 +25,8 @@ type Rig struct {
 	plugins []*scripted
 	mu      sync.Mutex // one case at a time
 	script  *caseScript
+	// WithSpec: also run the real OCI spec generator on the replies (C03)
+	WithSpec bool
 }
 
 const NPlugins = 6
@@ -183,6 +185,11 @@ type CaseObs struct {
 	Updates []*JUpdate    `json:"updates"`
 	Invoked []string      `json:"invoked"`
 	Views   []interface{} `json:"views"` // per invoked plugin: JContainer (create) / JResources (update) / null (stop)
+	// creation requests that succeeded: the original container's OCI spec after applying the
+	// combined adjustment / after applying each plugin's adjustment in turn (real generator)
+	Comb   *SpecFamilies `json:"comb"`
+	Seq    *SpecFamilies `json:"seq"`
+	GenErr string        `json:"genErr"`
 }
 
 var (
@@ -224,6 +231,13 @@ func (g *Rig) RunCase(in *CaseIn) (*CaseObs, error) {
 			obs.Adjust = FromAdjust(rpl.GetAdjust())
 			for _, u := range rpl.GetUpdate() {
 				obs.Updates = append(obs.Updates, FromUpdate(u))
+			}
+			if g.WithSpec {
+				comb, seq, gerr := CombinedVsSequential(in, rpl.GetAdjust())
+				obs.Comb, obs.Seq = comb, seq
+				if gerr != nil {
+					obs.GenErr = gerr.Error()
+				}
 			}
 		}
 	case "update":
